@@ -19,6 +19,7 @@ fn main() {
         Some("tables") => tables(),
         Some("run") => run_loop(),
         Some("decode") => decode_loop(),
+        Some("strwidth") => strwidth_loop(),
         _ => {
             eprintln!("usage: mt-replay tables|run|decode");
             std::process::exit(2);
@@ -130,6 +131,21 @@ fn decode_loop() {
             writeln!(o, "{}", serde_json::to_string(&cps).unwrap()).unwrap();
         }
         o.flush().unwrap();
+    }
+}
+
+/// One JSON array of code points per line in; unicode-width's string width out.
+fn strwidth_loop() {
+    use unicode_width::UnicodeWidthStr;
+    let stdin = std::io::stdin();
+    for line in stdin.lock().lines() {
+        let line = line.unwrap();
+        if line.trim().is_empty() {
+            continue;
+        }
+        let v: Value = serde_json::from_str(&line).unwrap();
+        let s: String = v.as_array().unwrap().iter().map(|x| char::from_u32(x.as_u64().unwrap() as u32).unwrap()).collect();
+        println!("{}", s.as_str().width());
     }
 }
 
